@@ -240,3 +240,18 @@ package utils
 //@ func (*BitList).IterateBytes
 //@   requires inv(bl)
 //@   ensures result != nil && fresh(result)
+
+// ---------------------------------------------------------------- GFPoly (C17: shape)
+//@ define polyOK(p *GFPoly) bool = p != nil && p.gf != nil && len(p.Coefficients) >= 1 && (forall k int :: 0 <= k && k < len(p.Coefficients) ==> 0 <= p.Coefficients[k] && p.Coefficients[k] < p.gf.Size)
+
+// NewGFPoly drops leading zero coefficients (keeping at least one) and shares the slice
+//@ func NewGFPoly
+//@   requires len(coefficients) >= 1
+//@   ensures fresh(result) && result.gf == field
+//@   ensures result.Coefficients.ref == coefficients.ref && len(result.Coefficients) >= 1 && result.Coefficients.off + len(result.Coefficients) == coefficients.off + len(coefficients)
+//@   ensures len(result.Coefficients) == 1 || result.Coefficients[0] != 0
+//@   ensures forall k int :: 0 <= k && k < len(coefficients) - len(result.Coefficients) ==> coefficients[k] == 0
+//@   ensures coefficients[0] != 0 ==> len(result.Coefficients) == len(coefficients)
+//@   loop 1 invariant coefficients.ref == coefficients0.ref && len(coefficients) >= 1 && coefficients.off + len(coefficients) == coefficients0.off + len(coefficients0) && len(coefficients) <= len(coefficients0) && cap(coefficients) >= len(coefficients)
+//@   loop 1 invariant forall k int :: 0 <= k && k < len(coefficients0) - len(coefficients) ==> coefficients0[k] == 0
+//@   loop 1 decreases len(coefficients)
